@@ -50,9 +50,33 @@ const (
 	rFalse
 	rPanic  // the call panicked: the operation never returned
 	rResErr // Close returned the error of a resource whose release failed (same effect as a plain return)
+	// instantiate whose start function ran and ended the instance: the module was registered
+	// for the duration of the start function and is closed and unregistered when the call returns
+	rOKClosed      // nil error (exit code 0, or the start function closed its own module and returned)
+	rStartFail     // error from the start function (trap, exit code != 0)
+	rStartFailOpen // error from the start function, but the module was still open on return (a violation by itself)
 )
 
-var resName = [...]string{"done", "ok", "errNameInUse", "errClosed", "errOther", "mod", "nil", "true", "false", "PANIC", "errResource"}
+// registers: the instantiate made a module visible in the registry (for good or for a while).
+func (o lop) registers() bool {
+	return o.Kind.isInst() && o.ID != 0 && (o.Res == rOK || o.Res == rOKClosed || o.Res == rStartFail || o.Res == rStartFailOpen)
+}
+
+// start function behaviours of the instantiated guest
+const (
+	sNone      = iota // no start function
+	sReturn           // returns normally
+	sTrap             // unreachable
+	sPanicExit        // calls a host function that panics with sys.NewExitError(x) without closing anything
+	sCloseSelf        // calls a host function that closes the calling module with exit code x and returns
+	sExit             // calls a host function that closes the calling module with x and panics with the exit error (proc_exit)
+	sCallPeer         // calls the export "boom" of the instance named N2, which exits itself with x
+	nStart
+)
+
+var startName = [...]string{"", "return", "trap", "panic-exit", "close-self", "exit", "peer-exits"}
+
+var resName = [...]string{"done", "ok", "errNameInUse", "errClosed", "errOther", "mod", "nil", "true", "false", "PANIC", "errResource", "ok-closed", "errStart", "errStart-left-open"}
 
 const anon = 2 // name index of the anonymous name ""
 
@@ -70,9 +94,25 @@ type lop struct {
 	Err    string  `json:"err,omitempty"`
 	X      uint32  `json:"exit_code,omitempty"`
 	F      int     `json:"resource,omitempty"` // instantiate: 1 = holds an open file, 2 = holds an open file whose Close fails
+	S      int     `json:"start,omitempty"`    // instantiate: start function behaviour (sReturn...)
+	N2     int     `json:"peer,omitempty"`     // sCallPeer: name of the instance whose export is called
 }
 
 var resMark = [...]string{"", "+file", "+failing-file"}
+
+func (o lop) mark() string {
+	s := resMark[o.F]
+	switch o.S {
+	case sNone:
+	case sReturn, sTrap:
+		s += "+start=" + startName[o.S]
+	case sCallPeer:
+		s += fmt.Sprintf("+start=%s(%s):%d", startName[o.S], nameStr(o.N2), o.X)
+	default:
+		s += fmt.Sprintf("+start=%s:%d", startName[o.S], o.X)
+	}
+	return s
+}
 
 func (o *lop) fill() { o.K = kindShort[o.Kind]; o.R = resName[o.Res] }
 
@@ -86,9 +126,11 @@ func nameStr(n int) string {
 func (o lop) String() string {
 	switch {
 	case o.Kind.isInst():
-		s := fmt.Sprintf("%s(%s%s)=%s", kindShort[o.Kind], nameStr(o.Name), resMark[o.F], resName[o.Res])
+		s := fmt.Sprintf("%s(%s%s)=%s", kindShort[o.Kind], nameStr(o.Name), o.mark(), resName[o.Res])
 		if o.Res == rOK {
-			s = fmt.Sprintf("%s(%s%s)=m%d", kindShort[o.Kind], nameStr(o.Name), resMark[o.F], o.ID)
+			s = fmt.Sprintf("%s(%s%s)=m%d", kindShort[o.Kind], nameStr(o.Name), o.mark(), o.ID)
+		} else if o.registers() {
+			s += fmt.Sprintf(":m%d", o.ID)
 		}
 		return s
 	case o.Kind == kLookup:
@@ -193,6 +235,30 @@ func (s mstate) release(rx relax, id, name int) []mstate {
 	return []mstate{byID, byName}
 }
 
+// closeStep is a close of module id: atomic in the strict model (phase 1
+// only); under relaxation M phase 1 marks the module closed and phase 2
+// releases the name.
+func (s mstate) closeStep(rx relax, id, name, phase int) []mstate {
+	if !rx.M {
+		s.open &^= bit(id)
+		return s.release(rx, id, name)
+	}
+	if phase != 2 {
+		s.open &^= bit(id)
+		s.pendC[id]++
+		return []mstate{s}
+	}
+	if s.pendC[id] == 0 {
+		return nil
+	}
+	s.pendC[id]--
+	rels := s.release(rx, id, name)
+	if s.pendC[id] > 0 && rels[0] != s {
+		rels = append(rels, s) // or another close of this module, still running, releases it
+	}
+	return rels
+}
+
 func (s mstate) emptied() mstate {
 	s.closing, s.closed, s.open, s.names, s.rel = true, true, 0, [2]uint8{}, 0
 	return s
@@ -215,7 +281,13 @@ func step(rx relax, s mstate, in pin, out pout) []mstate {
 	switch {
 	case in.kind.isInst():
 		switch out.res {
-		case rOK:
+		case rOK, rOKClosed, rStartFail, rStartFailOpen:
+			if in.phase >= 2 { // the start function (or the cleanup after it) closed the module again
+				return s.closeStep(rx, out.id, in.name, in.phase-1)
+			}
+			if out.id == 0 { // nothing was ever visible
+				return one(!s.closed && (in.name == anon || s.names[in.name] == 0), s)
+			}
 			if s.closed || (!rx.R && s.closing) {
 				return nil
 			}
@@ -249,24 +321,7 @@ func step(rx relax, s mstate, in pin, out pout) []mstate {
 		}
 		return one(s.names[in.name] == uint8(out.id), s)
 	case in.kind == kClose || in.kind == kCloseX:
-		if !rx.M {
-			s.open &^= bit(in.id)
-			return s.release(rx, in.id, in.name)
-		}
-		if in.phase != 2 {
-			s.open &^= bit(in.id)
-			s.pendC[in.id]++
-			return []mstate{s}
-		}
-		if s.pendC[in.id] == 0 {
-			return nil
-		}
-		s.pendC[in.id]--
-		rels := s.release(rx, in.id, in.name)
-		if s.pendC[in.id] > 0 && rels[0] != s {
-			rels = append(rels, s) // or another close of this module, still running, releases it
-		}
-		return rels
+		return s.closeStep(rx, in.id, in.name, in.phase)
 	case in.kind == kIsClosed:
 		isOpen := s.open&bit(in.id) != 0
 		if out.res == rFalse {
@@ -349,7 +404,7 @@ func buildOps(rx relax, h []lop) []porcupine.Operation {
 	}
 	nameOf := map[int]int{}
 	for _, o := range h {
-		if o.Kind.isInst() && o.Res == rOK {
+		if o.registers() {
 			nameOf[o.ID] = o.Name
 		}
 	}
@@ -375,8 +430,13 @@ func buildOps(rx relax, h []lop) []porcupine.Operation {
 		if o.Res == rPanic {
 			continue
 		}
-		if (rx.M && (o.Kind == kClose || o.Kind == kCloseX)) || (rx.R && o.Kind == kRtClose) || (rx.D && o.Kind.isInst() && o.Res == rDup) {
+		ended := o.registers() && (o.Res == rOKClosed || o.Res == rStartFail)
+		if (rx.M && (o.Kind == kClose || o.Kind == kCloseX)) || (rx.R && o.Kind == kRtClose) || (rx.D && o.Kind.isInst() && o.Res == rDup) || ended {
 			in.phase = 2
+			ops = append(ops, porcupine.Operation{ClientId: o.Client, Input: in, Output: out, Call: o.Call, Return: ret})
+		}
+		if ended && rx.M {
+			in.phase = 3
 			ops = append(ops, porcupine.Operation{ClientId: o.Client, Input: in, Output: out, Call: o.Call, Return: ret})
 		}
 	}
@@ -449,7 +509,7 @@ func minimise(rx relax, h []lop) []lop {
 	illegal := func(x []lop) bool { return check(rx, x) == porcupine.Illegal }
 	nameOf := func(x []lop, id int) int {
 		for _, o := range x {
-			if o.Kind.isInst() && o.Res == rOK && o.ID == id {
+			if o.registers() && o.ID == id {
 				return o.Name
 			}
 		}
@@ -508,7 +568,7 @@ func observer(o lop) bool {
 	case o.Kind == kRtClose, o.Kind == kClose, o.Kind == kCloseX:
 		return false
 	case o.Kind.isInst():
-		return o.Res != rOK
+		return !o.registers()
 	}
 	return true
 }
@@ -542,7 +602,7 @@ func shrinkEffects(core []lop) []lop {
 		changed = false
 		for i := len(cur) - 1; i >= 0; i-- {
 			o := cur[i]
-			if o.Kind.isInst() && o.Res == rOK {
+			if o.registers() {
 				used := false
 				for j, p := range cur {
 					if j != i && p.ID == o.ID {
@@ -593,6 +653,9 @@ func canon(h []lop) string {
 		case c.Kind.isInst():
 			c.Kind = kInst
 			c.Name = nm(c.Name)
+			if c.S == sCallPeer {
+				c.N2 = nm(c.N2)
+			}
 			if c.Res == rOtherErr {
 				c.Res = rClosedErr
 			}
